@@ -18,8 +18,9 @@ def setup(pid, tier, level, features=None, overflow=True):
     run.coverage_extra["tree_hash"] = doc["_info"]["tree_hash"][:16]
     run.coverage_extra["config"] = doc["_info"]["config"]
     run.coverage_extra["evaluators"] = sorted(models)
-    from ..premises import trait_impls, entry_chains, dep_features, token_stream
+    from ..premises import trait_impls, entry_chains, dep_features, token_stream, profile_const
     trait_impls(run, F, pid)
+    profile_const(run, F, pid)
     entry_chains(run, models, pid)
     if pid not in ("C06", "C09", "C18"):
         token_stream(run, models, pid)
